@@ -1,9 +1,117 @@
 (** C20 -- synthetic target emits an ordered, bounded, reproducible update stream.
     This file holds only the property theorems, each closed by [exact] of a
-    lemma proved elsewhere, with [Print Assumptions] beneath. *)
-From Gnmi Require Import Base.Prelude FakeQ.GoRand FakeQ.FakeQModel.
+    lemma proved elsewhere, with [Print Assumptions] beneath.
 
+    Vocabulary (FakeQModel / FakeQProofs): [run_cfg vs g ds n] is the list of
+    values returned by the first n calls of Next on the queue that client.go
+    reset builds from the values [vs] (each with the raw Int63 tape of its own
+    generator, if it has a seed), the raw tape [g] of the global generator and
+    the DisableSync flag [ds], together with how the run ended.  All theorems
+    hold for every configuration and every tape (arbitrary [list Z]). *)
+From Gnmi Require Import Base.Prelude FakeQ.GoRand FakeQ.FakeQModel FakeQ.FakeQProofs.
+From Coq Require Import Sorting.Sorted.
+Open Scope Z_scope.
+
+(** clause 1: non-decreasing timestamps, while no timestamp addition leaves
+    int64 (guard = known finding KF-C20-2; without it: C20_ts_nondecreasing_refuted) *)
+Theorem C20_ts_nondecreasing :
+  forall vs g ds n,
+    no_ts_overflow (fst (run_cfg vs g ds n)) ->
+    StronglySorted Z.le (map vts (fst (run_cfg vs g ds n))).
+Proof. exact ts_nondecreasing. Qed.
+Print Assumptions C20_ts_nondecreasing.
+
+Theorem C20_ts_nondecreasing_refuted :
+  exists vs g ds n, ~ StronglySorted Z.le (map vts (fst (run_cfg vs g ds n))).
+Proof. exact ts_nondecreasing_refuted. Qed.
+Print Assumptions C20_ts_nondecreasing_refuted.
+
+(** clause 2: repeat counts (at most [repeat] emissions; exactly [repeat] when
+    the queue runs dry, which cannot happen while an unbounded value exists) *)
+Theorem C20_repeat_exact :
+  forall vs g ds n v,
+    ids_ok vs -> In v (full_cfg vs ds) ->
+    (0 < vrep v -> count (vid v) (fst (run_cfg vs g ds n)) <= vrep v) /\
+    (snd (run_cfg vs g ds n) = EDone ->
+       0 < vrep v /\ count (vid v) (fst (run_cfg vs g ds n)) = vrep v).
+Proof. exact repeat_exact. Qed.
+Print Assumptions C20_repeat_exact.
+
+(** clause 3: every emitted value is a configured value as configured or lies
+    inside the configured range / option list (doubles: under non-NaN bounds,
+    unless the clamped sum is itself NaN) *)
+Theorem C20_in_range :
+  forall vs g ds n, Forall (genuine (full_cfg vs ds)) (fst (run_cfg vs g ds n)).
+Proof. exact in_range_run. Qed.
+Print Assumptions C20_in_range.
+
+(** clause 3, one step, all kinds: what [nextValue] generates from any state of
+    a configured kind lies in the configured range / option list *)
+Theorem C20_generated_in_range :
+  forall k0 k t k' t', like k0 k -> update_kind k t = RV k' t' -> like k0 k' /\ in_range k0 k'.
+Proof. exact update_kind_gen. Qed.
+Print Assumptions C20_generated_in_range.
+
+(** the bounded draws of the math/rand port stay in [0, n) for every tape *)
+Theorem C20_int63n_range :
+  forall n t x t', int63n n t = RV x t' -> 0 <= x < n.
+Proof. exact int63n_range. Qed.
+Print Assumptions C20_int63n_range.
+
+Theorem C20_intn_range :
+  forall n t x t', intn n t = RV x t' -> 0 <= x < n.
+Proof. exact intn_range. Qed.
+Print Assumptions C20_intn_range.
+
+(** clause 4: timestamp steps of one value stay within its delta bounds *)
+Theorem C20_ts_step_bounds :
+  forall vs g ds n a x b y c,
+    ids_ok vs ->
+    fst (run_cfg vs g ds n) = a ++ x :: b ++ y :: c -> vid y = vid x ->
+    (forall w, In w b -> vid w <> vid x) ->
+    vts x + vdmax x <= max_i64 ->
+    0 <= vdmin x /\ vdmin x <= vts y - vts x <= vdmax x.
+Proof. exact ts_step_bounds. Qed.
+Print Assumptions C20_ts_step_bounds.
+
+(** clause 5: the injected sync comes after the first emission of every
+    configured value *)
+Theorem C20_sync_after_first_emissions :
+  forall vs g n a s b,
+    ids_ok vs ->
+    fst (run_cfg vs g false n) = a ++ s :: b -> vid s = List.length vs ->
+    forall v, In v vs -> In (vid v) (ids a).
+Proof. exact sync_after_first_emissions. Qed.
+Print Assumptions C20_sync_after_first_emissions.
+
+(** clause 6: a function of configuration and tapes *)
 Theorem C20_deterministic :
   forall vs g ds n r1 r2, run_cfg vs g ds n = r1 -> run_cfg vs g ds n = r2 -> r1 = r2.
-Proof. intros; congruence. Qed.
+Proof. exact deterministic. Qed.
 Print Assumptions C20_deterministic.
+
+(** addValue's binary search is the stable sorted insertion *)
+Theorem C20_insert_is_sorted_insertion :
+  forall v q, wf q -> insert_value v q = Ok (ins v q).
+Proof. exact insert_value_ins. Qed.
+Print Assumptions C20_insert_is_sorted_insertion.
+
+(** the width guard: updateTimestamp panics exactly when delta_max-delta_min+1
+    leaves int64 (KF-C20-1), and some int64 configuration does panic *)
+Theorem C20_update_ts_panic_iff :
+  forall ts dmin dmax t,
+    update_ts ts dmin dmax t = RPanic <->
+    (0 <= ts /\ 0 <= dmin <= dmax /\ wrap64 (dmax - dmin + 1) <= 0).
+Proof. exact update_ts_panic_iff. Qed.
+Print Assumptions C20_update_ts_panic_iff.
+
+Theorem C20_no_panic_refuted : exists vs g ds n, snd (run_cfg vs g ds n) = EPanic.
+Proof. exact no_panic_refuted. Qed.
+Print Assumptions C20_no_panic_refuted.
+
+(** soundness of the order clause of the executable specification K_P (the one
+    applied to the implementation's own observations) *)
+Theorem C20_K_ts_sorted_sound :
+  forall l, FakeQCheck.ts_sorted_from None l = true -> StronglySorted Z.le (timed l).
+Proof. exact K_ts_sorted_sound. Qed.
+Print Assumptions C20_K_ts_sorted_sound.
